@@ -39,7 +39,8 @@ from typing import Any, Dict, List, Optional, Set, Tuple
 from sa import e7, sqlx
 from sa.callgraph import callgraph
 from sa.checks.c26 import CODE_RE, load_catalogue
-from sa.core import AnalysisError, Finding, FuncInfo, Program, Report, norm_locals, program, src, walk_no_nested
+from sa.cfg import CFG, describe_path
+from sa.core import AnalysisError, Finding, FuncInfo, Program, Report, dotted, norm_locals, program, src, walk_no_nested
 
 EXEC = "vtlengine.duckdb_transpiler.io._execution"
 TR = "vtlengine.duckdb_transpiler.Transpiler.SQLTranspiler"
@@ -448,6 +449,62 @@ def run(rep: Report, tier: str) -> None:
     rep.rule("R32.7", "dependency analysis: per-statement state (join aliases) is reset between statements - a dataset hidden by a stale alias is never loaded and the run ends in a raw CatalogException")
     from sa.checks.c12 import per_statement_state
     per_statement_state(P, rep, "R32.7")
+    # ---- R32.11: every pattern DuckDB's RE2 cannot run is routed to the Python matcher, whatever else the pattern contains ----
+    rep.rule("R32.11", "is_re2_incompatible evaluated on patterns that combine an RE2-unsupported construct (numeric / named backreference, look-around, atomic or conditional group) "
+                       "with constructs RE2 accepts ((?:…), (?i), character classes, escapes): the unsupported construct is detected in every combination, and plain patterns stay native")
+    from sa.e6 import Interp as _I11, Raised as _R11, Unmodelled as _U11
+    fre = P.func("vtlengine.duckdb_transpiler.Transpiler.operators.is_re2_incompatible")
+    unsupported = ["(ab)\\1", "(a)(b)\\2x", "(?P<n>a)(?P=n)", "a(?=b)", "a(?!b)", "(?<=a)b", "(?<!a)b", "(?>a+)b", "(a)?(?(1)b|c)", "(a)\\k<n>"]
+    harmless = ["", "(?:x|ab)", "(?i)", "[\\1-9]+", "\\d+\\.", "(?:a(?:b))c", "x{2,3}(?s)."]
+    n11 = 0
+    shown11 = 0
+    for u in unsupported:
+        for h in harmless:
+            for pat in {h + u, u + h}:
+                try:
+                    got = _I11(P, max_steps=20000).call(fre, {"pattern": pat})
+                except (_R11, _U11) as e:
+                    raise AnalysisError(f"R32.11: is_re2_incompatible outside the evaluator's language for {pat!r}: {e}")
+                n11 += 1
+                if n11 <= 3:
+                    rep.instance("R32.11", f"re2/{pat}", nontrivial=True, sample={"pattern": pat, "python_matcher": got})
+                if got is not True and shown11 < 3:
+                    shown11 += 1
+                    rep.add(Finding("R32.11", f"R32.11/re2/{u}/{h or 'alone'}", fre.module.rel, fre.node.lineno, fre.qualname,
+                                    f"the pattern {pat!r} contains {u!r}, which DuckDB's RE2 rejects, but is_re2_incompatible returns {got!r}: match_characters sends it to the native matcher "
+                                    f"and the raw duckdb.InvalidInputException (invalid escape sequence / missing argument) escapes instead of a result or a VTL error"))
+                    break
+    for h in harmless + ["abc", "^[A-Z]{3}\\d$", "(a|b)+c?"]:
+        try:
+            got = _I11(P, max_steps=20000).call(fre, {"pattern": h})
+        except (_R11, _U11) as e:
+            raise AnalysisError(f"R32.11: is_re2_incompatible outside the evaluator's language for {h!r}: {e}")
+        n11 += 1
+        if got is not False:
+            rep.note(f"R32.11: the RE2-compatible pattern {h!r} is routed to the Python matcher (slower, not wrong)")
+    rep.instance("R32.11", "patterns", nontrivial=True, sample={"evaluated": n11})
+    rep.floor("R32.11 patterns evaluated", n11, 100)
+    # ---- R32.12: a NULL scalar result is recognised before any type-specific formatting ----
+    rep.rule("R32.12", "_normalize_scalar_value: every path to a formatting call (strftime-based date formatting, rounding) has passed the null test - pd.NaT is a datetime instance and "
+                       "NaN a float, so a formatter reached first raises a raw ValueError for a NULL Date / Number scalar")
+    fns = P.func(f"{EXEC}._normalize_scalar_value")
+    g12 = CFG(fns.node)
+
+    def _is_null_test(n: Any) -> bool:
+        return any(isinstance(c, ast.Call) and (dotted(c.func) or "").split(".")[-1] in ("isna", "isnull", "notna", "notnull") for c in g12.calls_at(n)) or \
+            any(isinstance(x, ast.Compare) and any(isinstance(o, (ast.Is, ast.IsNot)) for o in x.ops) and any(isinstance(c_, ast.Constant) and c_.value is None for c_ in x.comparators)
+                for e_ in g12.own_exprs(n) for x in ast.walk(e_))
+    fmt_nodes = [n for n in g12.nodes if any(isinstance(c, ast.Call) and ((dotted(c.func) or "").split(".")[-1].startswith(("_format", "format_", "_round", "round")) or
+                                                                         (isinstance(c.func, ast.Attribute) and c.func.attr in ("strftime", "isoformat"))) for c in g12.calls_at(n))]
+    if not fmt_nodes or not any(_is_null_test(n) for n in g12.nodes):
+        raise AnalysisError("_normalize_scalar_value: formatting calls / null test not found (anchor changed)")
+    for fnode in fmt_nodes:
+        rep.instance("R32.12", f"format@{src(fnode.stmt)[:40] if fnode.stmt is not None else fnode.kind}", nontrivial=True)
+        p12 = g12.path_avoiding(g12.entry, lambda n, fnode=fnode: n is fnode, _is_null_test, follow_exc=False)
+        if p12 is not None:
+            rep.add(Finding("R32.12", f"R32.12/format-before-null-test/{src(fnode.stmt)[:40] if fnode.stmt is not None else ''}", fns.module.rel, getattr(fnode.stmt, "lineno", fns.node.lineno), fns.qualname,
+                            f"`{src(fnode.stmt)[:70] if fnode.stmt is not None else ''}` is reachable without the null test: a NULL Date scalar arrives as pd.NaT (a datetime instance), so "
+                            f"`sc_r <- cast(null, date);` ends in a raw `ValueError: NaTType does not support strftime` instead of a scalar holding null", describe_path(p12)))
     rep.assumptions = ["a DuckDB error() call surfaces as duckdb.InvalidInputException whose text contains the constant message",
                        "substring tests on the dynamic suffix of a message are treated as not matching"]
 
